@@ -10,17 +10,24 @@ Gen/C04Groove.lean; the theorems of lean/PyrollProps/C04.lean are re-checked aga
       * constructor plumbing     vs. the arguments the real constructor handed to the solver and the attributes
                                    of the finished groove,
       * junction chain z*/y*, alpha1/2, beta, gamma, contour-line functions, fourth-of-four resolution
-                                 vs. the attributes / methods of the real groove object).
+                                 vs. the attributes / methods of the real groove object,
+      * both sides of every test of `test_plausibility` vs. the code's own sub-expressions executed on the object, and
+        "one of them fires" vs. what the real method does).
 The independent oracle is written from the property text: a tracer re-traces the contour from the resolved radii and
 angles starting at the groove centre and checks that it closes at (usable_width/2, face) and at `depth`, that all joints
 are tangential without gaps or steps, that every given value is echoed, and that re-building from another admissible
 subset filled with the derived values gives the same contour wherever the values determine the groove uniquely.
+The same oracle is applied to the parameters the constructor had already resolved when it refuses an input (the generic
+constructor validates what it computed and raises: inconsistent derived values then show up as a rejection, not as a groove),
+to a sibling of every groove (same values, another pad angle) and to a re-build from the same values.
 """
 import contextlib
+import functools
 import inspect
 import math
 
 from ..translate import c04_solvers as T_solvers
+from ..translate import c04_validator as T_valid
 from ..translate import groove as T_groove
 from ..translate import pyexpr
 from .. import stub
@@ -28,13 +35,15 @@ from .. import stub
 ID = "C04"
 LEAN_MODULES = ["PyrollProps.C04"]
 MODEL = "c04"
-MODEL_MODULES = ["PyrollModel.Gen.C04", "PyrollModel.Gen.C04Groove", "PyrollModel.EvalDriver"]
+MODEL_MODULES = ["PyrollModel.Gen.C04", "PyrollModel.Gen.C04Groove", "PyrollModel.Gen.C04Valid", "PyrollModel.EvalDriver"]
 RULE = ("for each solver-backed groove class (20 incl. the Upset/Square subclasses and the generic class) and each admissible "
         "defining subset: a *feasible* geometry is drawn forwards (angles, radii, flank length, pad angle in {0,30,45,random}, "
         "scale log-uniform over 5 decades), the over-determined parameters are computed from it and the subset is handed to "
         "the real constructor; a case = one constructed groove (or one rejected draw); non-trivial = constructed and checked; "
         "distinct by class, subset and rounded parameters. Every constructed groove A is re-built from every other admissible "
-        "subset B filled with the values measured on A.")
+        "subset B filled with the values measured on A, then built with the same values under another pad angle (sibling) "
+        "and finally once more from A's own values (must give A's contour again). A draw the constructor refuses AFTER "
+        "it has resolved the parameters is checked on the refused object.")
 ASSUMPTIONS = [
     "IEEE rounding: theorems are over the reals; float comparisons use rtol 1e-9 (closed forms) and tolerances derived "
     "from the iteration precision of the scipy root finders (xtol 1.5e-8 for root/fixed_point, 2e-12 for root_scalar)",
@@ -42,6 +51,9 @@ ASSUMPTIONS = [
     "the returned root against the translated residual on every case)",
     "closure theorems are conditional on that contract; uniqueness of the root is proved only for the box-like "
     "even_ground_width+usable_width branch (under r2 <= W/2) and is otherwise established numerically per case",
+    "of the generic constructor's validation only test_plausibility is in the model (a resolution that closes is not refused, "
+    "the step test is two-sided); test_contour_points / test_complexity_of_contour_line work on sampled arrays and are only "
+    "exercised: a refusal of a consistent resolution is counted (rejected-consistent), not reported",
 ]
 TRUSTED_EXTRA = ["translator driver/translate/c04_solvers.py + groove.py (symbolic execution of the solver module per "
                  "None-pattern); mitigated by the per-definition differential run"]
@@ -338,6 +350,7 @@ class Log:
         self.solver_calls = []     # (solver name, bound args incl. defaults, result dict)
         self.oracles = []          # dict(kind, probes=[(x, f(x))], result, bracket)
         self.f1d = None            # the last scalar residual handed to root_scalar and its bracket
+        self.generic = []          # every object that entered GenericElongationGroove.__init__ (also when it raised later)
 
 
 @contextlib.contextmanager
@@ -351,7 +364,19 @@ def instrumented(log):
         saved.append((mod, name, getattr(mod, name)))
         setattr(mod, name, new)
 
-    o_rs, o_root, o_fp = ges.root_scalar, ges.root, ges.fixed_point
+    def real(f):
+        """call through to the implementation: an exception coming out of it is the implementation's (also when it is raised
+        by C code and leaves no frame of its own, e.g. a cache refusing an unhashable argument), not the harness's"""
+        @functools.wraps(f)
+        def call(*a, **kw):
+            try:
+                return f(*a, **kw)
+            except Exception as ex:
+                ex._c04_from_implementation = True
+                raise
+        return call
+
+    o_rs, o_root, o_fp = real(ges.root_scalar), real(ges.root), real(ges.fixed_point)
 
     def root_scalar(f, bracket=None, **kw):
         res = o_rs(f, bracket=bracket, **kw)
@@ -377,15 +402,26 @@ def instrumented(log):
         log.oracles.append(dict(kind="fixed_point", probes=[([x], [float(f(x))]) for x in xs], result=[float(r)]))
         return r
 
+    gen = importlib.import_module("pyroll.core.grooves.generic_elongation").GenericElongationGroove
+    o_init = gen.__dict__["__init__"]
+
+    @functools.wraps(o_init)
+    def generic_init(self, *a, **kw):
+        # the object is remembered BEFORE the real constructor runs: when the validation at its end raises, the resolved
+        # parameters and the junction chain are already stored on it and can still be looked at (see `resolved_of`)
+        log.generic.append(self)
+        return real(o_init)(self, *a, **kw)
+
     try:
+        patch(gen, "__init__", generic_init)
         patch(ges, "root_scalar", root_scalar)
         patch(ges, "root", root)
         patch(ges, "fixed_point", fixed_point)
         for sname in T_solvers.SOLVERS:
-            real = getattr(ges, sname)
-            sig = inspect.signature(real)
+            real_solver = getattr(ges, sname)
+            sig = inspect.signature(real_solver)
 
-            def wrapper(*a, _real=real, _sig=sig, _name=sname, **kw):
+            def wrapper(*a, _real=real(real_solver), _sig=sig, _name=sname, **kw):
                 ba = _sig.bind(*a, **kw)
                 ba.apply_defaults()
                 res = _real(*a, **kw)
@@ -393,7 +429,7 @@ def instrumented(log):
                 return res
             for rel, cname in T_solvers.CLASSES:
                 mod = importlib.import_module("pyroll.core.grooves." + rel[:-3].replace("/", "."))
-                if getattr(mod, sname, None) is real:
+                if getattr(mod, sname, None) is real_solver:
                     patch(mod, sname, wrapper)
         yield
     finally:
@@ -431,11 +467,17 @@ def trace(g):
     return pts, psi, z_face, deepest
 
 
-def check_groove(ctx, cname, subset, kwargs, g, scale, iterative, given, observe_only=False):
+def check_groove(ctx, cname, subset, kwargs, g, scale, iterative, given, observe_only=False, rejected=None, after=None):
     """the property on one finished groove.  `given`: {attribute name: expected value} for the echo.
-    `observe_only`: count instead of reporting (solver patterns no groove class reaches are outside the property)."""
-    replay = {"class": cname, "kwargs": kwargs}
+    `observe_only`: count instead of reporting (solver patterns no groove class reaches are outside the property).
+    `rejected`: name of the exception the constructor raised AFTER it had resolved the parameters (`g` is then the object
+    the generic constructor was filling in, see `resolved_of`): the same clauses, reported under `rejected-inconsistent:*`.
+    `after`: the input that was built immediately before (sibling cases: the replay re-executes the sequence)."""
+    replay = {"class": cname, "kwargs": kwargs} if after is None else {"class": cname, "A": after, "B": kwargs}
     tag = cname + ":" + "+".join(subset)
+    if rejected is not None:
+        # attributes a subclass stores only after the generic constructor has returned do not exist on such an object
+        given = {k: v for k, v in given.items() if hasattr(g, k)}
     sfa = max(abs(math.sin(g.flank_angle)), 1e-3)
     # tolerance: solver precision (xtol of root/fixed_point 1.5e-8, relative) times the conditioning of the closure
     # (a small flank angle amplifies by 1/sin^2); closed-form families are exact up to rounding
@@ -457,6 +499,10 @@ def check_groove(ctx, cname, subset, kwargs, g, scale, iterative, given, observe
         if observe_only:
             ctx.count(f"observed:{key}:{tag}")
             ctx.notes.setdefault("observed", {}).setdefault(f"{key}:{tag}", {"what": what, "replay": replay})
+        elif rejected is not None:
+            ctx.violation("rejected-inconsistent:" + key + ":" + cname,
+                          f"{tag}: the parameters derived for this input are geometrically inconsistent - {what} - and the "
+                          f"constructor then fails with {rejected} instead of resolving the groove", replay)
         else:
             ctx.violation(key + ":" + cname, f"{tag}: {what}", replay)
 
@@ -587,10 +633,11 @@ class _View:
 # correspondence: generated definitions vs the real code
 # ---------------------------------------------------------------------------------------------------------
 class Corr:
-    def __init__(self, ctx, solvers, classes, chain, resolution, contour_fns):
+    def __init__(self, ctx, solvers, classes, chain, resolution, contour_fns, tests=()):
         self.ctx = ctx
         self.solvers, self.classes = solvers, classes
         self.chain, self.resolution, self.cf = chain, resolution, contour_fns
+        self.tests = list(tests)
         self.lines, self.expect = [], []
 
     def add(self, name, env, want, what, rtol=1e-9, atol=0.0):
@@ -675,10 +722,39 @@ class Corr:
                 self.add(f"{oc.lean_name}.{k}", env, have, "constructor-kwarg", rtol=1e-9, atol=1e-12 * scale)
         self.ctx.count("K:plumbing:" + cname)
 
+    @staticmethod
+    def chain_env(g, pad):
+        return dict(r1=g.r1, r2=g.r2, r3=g.r3, r4=g.r4, alpha3=g.alpha3, alpha4=g.alpha4, indent=g.indent,
+                    even_ground_width=g.even_ground_width, pad=pad, pad_angle=g.pad_angle, flank_angle=g.flank_angle,
+                    usable_width=g.usable_width, ground_width=g.ground_width, depth=g.depth)
+
+    def validator_case(self, obj, pad, scale, what):
+        """the translated `test_plausibility` vs the real one, on a finished groove or on an object the constructor refused
+        after resolving (`what` = "constructed" / "refused"):
+        * each side of each test over Float vs the code's own source sub-expression executed on the object,
+        * "one of the tests holds" vs what the real method does when called on the object (raises / returns)."""
+        if not self.tests:
+            return
+        env = self.chain_env(obj, pad)
+        predicted = False
+        for i, t in enumerate(self.tests):
+            lhs, rhs = T_valid.evaluate(t, obj)
+            # the left sides are differences that vanish on a closed chain (rounding noise of sums of size `scale`)
+            self.add(f"plaus_{i}_lhs", env, lhs, "validator", rtol=1e-9, atol=1e-11 * max(scale, 1e-300))
+            self.add(f"plaus_{i}_rhs", env, rhs, "validator", rtol=1e-9, atol=1e-15 * max(scale, 1e-300))
+            predicted = predicted or T_valid.fires(t, lhs, rhs)
+        try:
+            obj.test_plausibility()
+            raised = False
+        except (ValueError, TypeError):
+            raised = True
+        if raised != predicted:
+            self.ctx.disagreement(f"test_plausibility {'raises' if raised else 'returns'} on a {what} groove, the translated "
+                                  f"tests say {'raise' if predicted else 'return'}", {"env": env})
+        self.ctx.count(f"K:validator:{what}:{'raises' if raised else 'accepts'}")
+
     def chain_case(self, g, pad, scale, rng):
-        env = dict(r1=g.r1, r2=g.r2, r3=g.r3, r4=g.r4, alpha3=g.alpha3, alpha4=g.alpha4, indent=g.indent,
-                   even_ground_width=g.even_ground_width, pad=pad, pad_angle=g.pad_angle, flank_angle=g.flank_angle,
-                   usable_width=g.usable_width, ground_width=g.ground_width, depth=g.depth)
+        env = self.chain_env(g, pad)
         for name, _ in self.chain:
             if hasattr(g, name):
                 # angles: absolute 1e-12; lengths: relative to the groove size (sums of many terms of that size)
@@ -739,19 +815,82 @@ def _guard_holds(g, env):
 # ---------------------------------------------------------------------------------------------------------
 def construct(cname, kwargs, log):
     """-> (groove | None, exception name | None).  Exceptions raised inside pyroll/scipy/numpy while constructing are
-    rejections; anything raised by the harness itself propagates."""
+    rejections; anything raised by the harness itself propagates.  After a rejection `log.resolved` is the object whose
+    parameters had already been resolved when the constructor raised (None when it raised earlier)."""
     import traceback
     import warnings
     log.reset()
+    log.resolved = None
     try:
         with warnings.catch_warnings():
             warnings.simplefilter("ignore")
             return _cls(cname)(**kwargs), None
     except Exception as ex:
         tb = traceback.extract_tb(ex.__traceback__)
-        if len(tb) <= 1 or tb[-1].filename == __file__:
+        if (len(tb) <= 1 or tb[-1].filename == __file__) and not getattr(ex, "_c04_from_implementation", False):
             raise                                   # raised by the harness (wrong keyword, instrumentation): not a rejection
+        log.resolved = resolved_of(log)
         return None, type(ex).__name__
+
+
+# everything `check_groove` reads: the resolved parameters, the junction chain and the contour vertices
+_RESOLVED_ATTRS = (["r1", "r2", "r3", "r4", "alpha1", "alpha2", "alpha3", "alpha4", "indent", "even_ground_width",
+                    "usable_width", "depth", "flank_angle", "pad_angle", "contour_points", "z12", "y12"]
+                   + [c + str(i) for i in (0, 1, 2, 3, 4, 5, 6, 7, 9) for c in "zy"])
+
+
+def resolved_of(log):
+    """The constructor raised.  When it had got as far as resolving the parameters (the solver returned, the derived
+    values were handed to the generic constructor, which stored them and computed the junctions, and only the validation
+    at its end - or a later statement of the subclass - refused the result), the object it was filling in carries all
+    resolved values: the property's clauses can be evaluated on it although no groove is handed to the caller."""
+    if not log.generic:
+        return None
+    obj = log.generic[-1]
+    for a in _RESOLVED_ATTRS:
+        try:
+            if getattr(obj, a) is None:
+                return None
+        except AttributeError:
+            return None
+    return obj
+
+
+def rejected_case(ctx, corr, log, cname, subset, kwargs, scale, err, after=None):
+    """A rejected input whose parameters HAD been resolved (see `resolved_of`): "whatever admissible subset is supplied,
+    the derived ones are geometrically consistent" is a statement about exactly these derived values, so the oracle is run
+    on them.  Inconsistent derived values that a validator turns into an exception are still inconsistent derived values
+    (and the input, drawn forwards from a consistent groove, has a consistent resolution).  A consistent resolution that
+    is nevertheless refused is only counted: rejecting is the business of C03 (contour validity)."""
+    obj = log.resolved
+    tag = cname + ":" + "+".join(subset)
+    if obj is None:
+        ctx.count("rejected-before-resolution:" + cname)        # the solver itself raised (no root found): nothing derived
+        return
+    if ctx.model_available and corr is not None:
+        corr.validator_case(obj, kwargs.get("pad") or obj.usable_width * _rel_pad(), scale, "refused")
+    ok = check_groove(ctx, cname, subset, kwargs, _View(obj), scale, cname in ITERATIVE, expected_echo(cname, kwargs, obj),
+                      observe_only=cname in DIRECT, rejected=err, after=after)
+    ctx.count(("rejected-consistent:" if ok else "rejected-inconsistent:") + tag)
+    if ok:
+        ctx.notes.setdefault("observed", {}).setdefault("rejected-consistent:" + tag, {
+            "what": f"resolved consistently, then refused with {err}", "replay": {"class": cname, "kwargs": kwargs}})
+
+
+def _must_resolve(cname, subset, info):
+    """Forward-drawn inputs (`info["fa"]`: the flank angle of the witness groove) of the one-radius family with r2 and depth
+    given: the solver looks for the flank angle as the root of a residual that is strictly monotone on (0, pi/2)
+    (`r124_widthNone_*_root_unique`, for r1 >= 0, r2 > 0, 0 <= pad angle < pi/2, all guaranteed by `draw`), the witness angle
+    (12..80 degrees) is a root inside the bracket (MIN_ANGLE, MAX_ANGLE), so the residual changes sign over the bracket and a
+    bracketing root finder cannot fail; with the flank angle given there is nothing to search for at all.  A refusal of such
+    an input is the code's doing, not the input's.  (No rejection in 240 x 21 thorough draws of the unchanged tree.)
+    Other families are refused now and then for reasons outside the property (hybr not converging from its start value, the
+    raster pre-search finding no sign change): those stay counted."""
+    if "fa" not in info:
+        return False
+    if cname == "FlatOvalGroove":
+        return True
+    return cname in R124_PLAIN + ["FalseRoundGroove"] and tuple(subset[:2]) == ("r2", "depth")
 
 
 def unique_1d(log):
@@ -790,18 +929,26 @@ def run_case(ctx, corr, log, cname, subset, fixed, vals, info, cross=True, corpu
         ctx.case(canon, nontrivial=False)
         ctx.count("rejected:" + tag)
         ctx.count("rejected-with:" + err)
+        rejected_case(ctx, corr, log, cname, subset, kwargs, scale, err)
+        if log.resolved is None and _must_resolve(cname, subset, info):
+            ctx.violation("feasible-refused:" + cname + ":" + "+".join(subset),
+                          f"{tag}: refused with {err} before anything was resolved, although a consistent groove with exactly "
+                          f"these values exists (flank angle {info['fa'] / DEG} deg, drawn forwards) and the values determine it "
+                          "uniquely (residual strictly monotone over the whole bracket)",
+                          {"class": cname, "kwargs": kwargs, "witness": {"flank_angle_deg": info["fa"] / DEG}})
         return None
     ctx.case(canon)
     ctx.count("constructed:" + tag)
     calls, oracles = list(log.solver_calls), list(log.oracles)
     iterative = cname in ITERATIVE
     # (K) generated definitions vs this very construction
-    if ctx.model_available:
+    if ctx.model_available and corr is not None:
         if len(calls) == 1:
             corr.solver_case(calls[0][0], calls[0][1], calls[0][2], oracles, scale)
         corr.plumbing_case(cname, kwargs, calls, g, scale)
         pad = kwargs.get("pad") or g.usable_width * _rel_pad()
         corr.chain_case(g, pad, scale, rng)
+        corr.validator_case(g, pad, scale, "constructed")
         if cname == "GenericElongationGroove":
             missing = [k for k in ("usable_width", "ground_width", "flank_angle", "depth") if k not in subset][0]
             corr.resolution_case(missing, vals, g)
@@ -842,6 +989,7 @@ def run_case(ctx, corr, log, cname, subset, fixed, vals, info, cross=True, corpu
         if gb is None:
             ctx.case(canon_b, nontrivial=False)
             ctx.count("cross-rejected:" + cname + ":" + "+".join(sb))
+            rejected_case(ctx, corr, log, cname, sb, kb, scale, errb)
             continue
         ctx.case(canon_b)
         okb = check_groove(ctx, cname, sb, kb, _View(gb), scale, iterative, expected_echo(cname, kb, gb))
@@ -865,6 +1013,45 @@ def run_case(ctx, corr, log, cname, subset, fixed, vals, info, cross=True, corpu
                           "consistent and the values determine the groove uniquely", {"class": cname, "A": kwargs, "B": kb})
         else:
             ctx.count("cross-ambiguous:" + cname)       # several consistent grooves share B's values: not unique
+    # a sibling: the very same values under another roll-face angle (0 <-> 30/45 degrees) - a sequence of calls that differ
+    # in ONE argument is what exposes a value remembered from the previous call or dropped on the way to a shared helper
+    if "pad_angle" in kwargs and not corpus:
+        alt = 0.0 if kwargs["pad_angle"] else rng.choice([30.0, 45.0])
+        ks = dict(kwargs, pad_angle=alt * DEG if cname == "GenericElongationGroove" else alt)
+        gs, errs = construct(cname, ks, log)
+        canon_s = [cname, "sibling", list(subset), sorted((k, float("%.6g" % v)) for k, v in ks.items())]
+        if gs is None:
+            # not drawn forwards: the values may simply not fit the other face angle
+            ctx.case(canon_s, nontrivial=False)
+            ctx.count("sibling-rejected:" + cname)
+            rejected_case(ctx, corr, log, cname, subset, ks, scale, errs, after=kwargs)
+        else:
+            ctx.case(canon_s)
+            ctx.count("sibling-constructed:" + cname)
+            check_groove(ctx, cname, subset, ks, _View(gs), scale, iterative, expected_echo(cname, ks, gs), after=kwargs)
+    # the same subset with the same values once more, after other grooves (other subsets, hence other solver branches) have
+    # been built in between: the resolution is a function of the given values alone - whatever a solver keeps between calls
+    # (a cached root, a start value, a module-level default) must not leak into the next groove.  Same rule as for another
+    # subset: a different contour is a violation only where the values determine the groove uniquely (a warm start that
+    # lands on the second root of a non-monotone residual is counted), differences within solver precision are the same
+    # contour.
+    g2, err2 = construct(cname, kwargs, log)
+    if g2 is None:
+        ctx.count("rebuild-rejected:" + cname)
+        rejected_case(ctx, corr, log, cname, subset, kwargs, scale, err2)
+        return g
+    a, b = np.asarray(g.contour_points), np.asarray(g2.contour_points)
+    sfa = max(abs(math.sin(g.flank_angle)), 1e-3)
+    lim = (1e-5 if iterative else 1e-8) / sfa ** 2 * scale
+    diff = float(np.abs(a - b).max()) if a.shape == b.shape else float("inf")
+    if diff <= lim:
+        ctx.count("rebuild-same" if diff == 0.0 else "rebuild-same-within-precision")
+    elif not iterative or (not [o for o in log.oracles if o["kind"] == "root"] and unique_1d(log)):
+        ctx.violation("rebuild-differs:" + cname, f"{tag}: building the groove again from the very same values gives another "
+                      f"contour (difference {diff}, limit {lim}) although the values determine the groove uniquely",
+                      {"class": cname, "kwargs": kwargs})
+    else:
+        ctx.count("rebuild-ambiguous:" + cname)
     return g
 
 
@@ -902,20 +1089,33 @@ def _extracted(ctx):
         solvers = T_solvers.extract_solvers()
         classes = T_solvers.extract_classes(solvers)
         chain, _ = T_groove.extract_chain()
-        found = (solvers, classes, chain, T_groove.extract_resolution(),
-                 T_groove.extract_contour_functions(chain_names=[n for n, _ in chain]))
+        cf = T_groove.extract_contour_functions(chain_names=[n for n, _ in chain])
+        found = (solvers, classes, chain, T_groove.extract_resolution(), cf,
+                 T_valid.extract_plausibility(None, [n for n, _ in chain], cf)[0])
     return found
 
 
 def translate(ctx):
     solvers, classes = T_solvers.emit(ctx, ID)
     chain, res, cf = T_groove.emit(ctx, ID)
-    ctx.c04 = (solvers, classes, chain, res, cf)
+    tests = T_valid.emit(ctx, ID, chain, cf)
+    ctx.c04 = (solvers, classes, chain, res, cf, tests)
+
+
+def _corr(ctx):
+    """the correspondence side; None when the source has left the translator's subset so far that nothing can be
+    extracted (already reported as a broken tie by `translate`): the oracle still runs on the implementation"""
+    try:
+        return Corr(ctx, *_extracted(ctx))
+    except Exception as ex:
+        if getattr(ctx, "c04", None) is not None:
+            raise
+        ctx.count("K:unavailable:" + type(ex).__name__)
+        return None
 
 
 def run(ctx):
-    solvers, classes, chain, res, cf = _extracted(ctx)
-    corr = Corr(ctx, solvers, classes, chain, res, cf)
+    corr = _corr(ctx)
     log = Log(ctx.rng)
     with instrumented(log):
         for (cname, subset, fixed, vals, scale) in CORPUS:
@@ -936,14 +1136,14 @@ def run(ctx):
                     # unchanged tree are < 8 % for every class/subset (non-convergence of hybr, IndexError of the raster)
                     ctx.disagreement(f"{cname} rejects {n - built} of {n} feasible geometries given as {subset}",
                                      {"class": cname, "subset": list(subset)})
-    if ctx.model_available:
+    if ctx.model_available and corr is not None:
         corr.flush()
 
 
 def replay(ctx, data):
     r = data.get("replay", data)
     log = Log(ctx.rng)
-    corr = Corr(ctx, *_extracted(ctx))
+    corr = _corr(ctx)
     with instrumented(log):
         for kw in [r.get("kwargs"), r.get("A"), r.get("B")]:
             if not kw:
@@ -953,6 +1153,9 @@ def replay(ctx, data):
             subset = tuple(k for k in kw if k in opt)
             scale = max(abs(v) for k, v in kw.items() if v is not None and "angle" not in k)
             fixed = {k: v for k, v in kw.items() if k not in subset}
-            run_case(ctx, corr, log, cname, subset, fixed, kw, dict(scale=scale), cross=True)
-    if ctx.model_available:
+            info = dict(scale=scale)
+            if r.get("witness") and kw is r.get("kwargs"):
+                info["fa"] = r["witness"]["flank_angle_deg"] * DEG      # a forward-drawn input (see `_must_resolve`)
+            run_case(ctx, corr, log, cname, subset, fixed, kw, info, cross=True)
+    if ctx.model_available and corr is not None:
         corr.flush()
